@@ -6,6 +6,9 @@ package main
 //	     era  = mary | alonzo | babbage | conway | dijkstra
 //	     enc  = m (quantities encoded minimally: major 0/1, bignum only beyond 64 bits)
 //	          | b (every quantity as a tagged bignum, also small ones)
+//	          | s (the output value is built as a Go struct — MaryTransactionOutputValue with a
+//	            MultiAsset holding the quantity as *big.Int — and encoded by the library's own
+//	            encoder; the transaction around it is then decoded as usual: encoder → decoder)
 //	     in   = quantity of the token held by the spent input (0 = ada only)
 //	     mint = quantity minted (any signed integer, also beyond int64; 0 = no mint field)
 //	     qi   = quantity of the token in output i: any signed integer, "-" = ada-only output
@@ -59,7 +62,7 @@ func c08Qty(r *Rand) *big.Int {
 func genC08(r *Rand, n int, tier string, emit func(string)) {
 	for i := 0; i < n; i++ {
 		era := c08Eras[r.Intn(len(c08Eras))]
-		enc := Pick(r, "m", "m", "b")
+		enc := Pick(r, "m", "m", "b", "s")
 		k := Pick(r, 1, 2, 2, 3, 4)
 		qs := make([]*big.Int, k)
 		strs := make([]string, k)
@@ -149,7 +152,7 @@ func runC08(op string) string {
 		return "bad-op"
 	}
 	era, enc := f[1], f[2]
-	if g1EraIndex(era) < 2 || (enc != "m" && enc != "b") {
+	if g1EraIndex(era) < 2 || (enc != "m" && enc != "b" && enc != "s") {
 		return "bad-op"
 	}
 	in, ok1 := new(big.Int).SetString(f[3], 10)
@@ -180,6 +183,18 @@ func runC08(op string) string {
 			return "bad-op"
 		}
 		val := cbArray(cbUint(coin), cbMap(cbBytes(policy), cbMap(cbBytes(name), c08Int(q, enc))))
+		if enc == "s" {
+			ma := common.NewMultiAsset[common.MultiAssetTypeOutput](
+				map[common.Blake2b224]map[cbor.ByteString]common.MultiAssetTypeOutput{
+					common.NewBlake2b224(policy): {cbor.NewByteString(name): new(big.Int).Set(q)},
+				})
+			sv := mary.MaryTransactionOutputValue{Amount: coin, Assets: &ma}
+			enc2, err := cbor.Encode(&sv)
+			if err != nil {
+				return "encode-err"
+			}
+			val = enc2
+		}
 		outs = append(outs, cbArray(cbBytes(key.addr(1)), val))
 	}
 	fee := uint64(300000)
